@@ -23,6 +23,7 @@ BODIES = [
     "- a\n- b\n\n1. x\n2. y\n", "> quote\n\n```\ncode\n```\n", "text with \"quotes\" and dots...\n",
     "   indented start\n", "\n\nleading blanks\n", "para one\n\npara two\n", "| a | b |\n|---|---|\n| 1 | 2 |\n",
     "a\x1c\x1cb\n", "x y\n", "* * *\n", "***\n",
+    "    para one\n\n    para two\n", "  - a\n  - b\n\n      code\n", "\tx\n\n\ty\n",
 ]
 DASH_BODIES = ["---\n", "---\nmore\n", "\n---\nx\n", " --- \nfoo\n"]
 
@@ -52,7 +53,8 @@ def gen_frontmatters(ctx: Ctx):
         n = rng.randint(0, 5)
         mid = []
         for _ in range(n):
-            l = rng.choice(["k: v", "title: \"A ... B\"", "- item", "# x", "", "  nested: 1  ", "x: 'it''s'", "emoji: \U0001F600", "tab:\tv"])
+            l = rng.choice(["k: v", "title: \"A ... B\"", "- item", "# x", "", "  nested: 1  ", "x: 'it''s'", "emoji: \U0001F600", "tab:\tv",
+                            "   ", "\t", "cr: v\r", "a --- b", "# ---- x ----", "----", "--- x"])
             mid.append(l)
         term = rng.choice(TERMS) if rng.random() < 0.3 else "\n"
         yield "---" + term + "".join(l + term for l in mid) + "---" + term, "clean"
@@ -95,11 +97,12 @@ def oracle(ctx: Ctx) -> None:
                     continue
                 again = reformat_text(out, **o)
                 if again != out:
-                    ctx.fail("idempotence with frontmatter", case, {"first": out, "second": again},
-                             known="C07-body-starts-with-dashes" if dash else None)
+                    kn = "C07-body-starts-with-dashes" if dash else ("C07-cr-before-crlf" if "\r\r\n" in fm else None)
+                    ctx.fail("idempotence with frontmatter", case, {"first": out, "second": again}, known=kn)
     # unclosed frontmatter: unchanged apart from a final newline, however often formatted
     unclosed = ["---\nfoo: bar\n", "---\nfoo: bar", "---\n", "---", "---\na\n\nb: - x\n# h\n", "\n---\nx: 1\n", "---\r\nk: v\r\n",
-                "---\nk: v\n\n\n", " --- \nk\n", "---\nx y\n", "---\na\x1cb\n"]
+                "---\nk: v\n\n\n", " --- \nk\n", "---\nx y\n", "---\na\x1cb\n",
+                "---\na --- b\n", "---\n# ---- x ----\n", "---\n----\n", "---\nk: '---'\n", "---\n--- x\ny\n", "---\n   \nk\n", "---\nk\r\r\n"]
     for u in unclosed:
         for o in OPTSETS:
             case = {"unclosed": u, "opts": o}
@@ -151,8 +154,9 @@ def tie_split(ctx: Ctx) -> None:
     from flowmark.linewrapping import markdown_filling as mf
     cases = []
     for _ in range(ctx.scale(1500, 15000)):
-        fm = rng.choice(["", "---\nk: v\n---\n", "---\nk\n", "\n\n---\na\r\n---\r\n"])
-        body = rng.choice(["x\n", "  y  \n\n", "", "\n\n  z", "   a\n   b\n", "\ta\n\tb", "---\nq"])
+        fm = rng.choice(["", "---\nk: v\n---\n", "---\nk\n", "\n\n---\na\r\n---\r\n", "---\na --- b\n", "---\n----\nq\n",
+                         "---\n  \nk\n---\n", " ---\nk\n--- \n", "---\nk\r\r\n---\n"])
+        body = rng.choice(["x\n", "  y  \n\n", "", "\n\n  z", "   a\n   b\n", "\ta\n\tb", "---\nq", "    a\n\n    b\n"])
         cases.append(fm + body)
     outs = run_driver([f"fmshell\t{enc(t)}" for t in cases], workers=8)
     bad = 0
@@ -201,7 +205,10 @@ def replay_findings(ctx: Ctx) -> None:
         inp = e.get("input") or {}
         if "text" in inp:
             o = inp.get("opts", OPTSETS[0])
-            if inp.get("kind") == "indep":
+            if inp.get("kind") == "unclosed-na":
+                a = reformat_text(inp["text"], **o)
+                still = reformat_text(a, **o) != a
+            elif inp.get("kind") == "indep":
                 fm, body = inp["frontmatter"], inp["body"]
                 still = reformat_text(fm + body, **o) != fm + reformat_text(body, **o)
             elif inp.get("kind") == "unclosed":
@@ -216,12 +223,36 @@ def run(ctx: Ctx) -> None:
     driver_ok = lean_obligations(ctx)
     replay_findings(ctx)
     if driver_ok:
-        tie_split(ctx)
+        ctx.guard("tie frontmatter/fmshell", tie_split)
     oracle(ctx)
     ctx.assume("Markdown formatting of the body is a parameter F of the shell model (C07 is about the frontmatter shell)")
 
 
 def search(ctx: Ctx) -> None:
+    reformat_text, _ = _api()
+    o = OPTSETS[0]
+    for b in ctx.broken_inputs:
+        t = b["case"].get("text")
+        if t is None:
+            continue
+        try:
+            mfm = json.loads(b["model"])[0] if b["tie"] == "frontmatter" else None
+        except Exception:
+            mfm = None
+        out = reformat_text(t, **o)
+        if mfm and mfm != t:
+            # the model is the pinned splitter semantics (for which the theorems hold): replay end-to-end
+            if not out.startswith(mfm):
+                ctx.fail("FM_EXACT: frontmatter (as delimited by the pinned splitter semantics) not reproduced character for character",
+                         {"text": t, "opts": o}, {"expected_prefix": mfm, "out": out[: len(mfm) + 30]})
+                continue
+            tn = t.replace("\r\n", "\n")
+            idx = tn.find(mfm)
+            body = tn[idx + len(mfm):] if idx >= 0 else None
+            if body is not None and (not body.strip() or body.strip().split("\n")[0].strip() != "---"):
+                if reformat_text(mfm + body, **o) != mfm + reformat_text(body, **o):
+                    ctx.fail("FM_INDEP: format(frontmatter + body) != frontmatter + format(body)",
+                             {"frontmatter": mfm, "body": body, "opts": o}, None)
     old = ctx.tier
     ctx.tier = "thorough"
     try:
